@@ -139,6 +139,8 @@ def run_recipe(prog):
                                            [(subs[s], dsl.qty_str(q)) for s, q in o['init']] or None)
         else:
             handles[o['name']] = Plate(cname(o['name']), dsl.qty_str(o['max']), rows=o['rows'], columns=o['cols'])
+    for pf in prog.get('prefill', []):
+        handles[pf['src']], handles[pf['dst']] = Plate.transfer(handles[pf['src']], handles[pf['dst']], dsl.qty_str(pf['q']))
     initial = {n: helper.dump(h) for n, h in handles.items()}
     r = Recipe()
     r.uses(*handles.values())
@@ -153,9 +155,25 @@ def run_recipe(prog):
                     r.end_stage(s['name'])
 
     def href(ref):
+        """the operand as a user would write it.  Two spellings that must not matter are mixed in deterministically: a list selector
+        whose list object is changed by the caller AFTER the slice was taken, and a rectangle taken as a slice of a slice"""
         if 'c' in ref:
             return handles[ref['c']]
-        return handles[ref['p']][dsl.py_selector(ref['r'])]
+        import zlib
+        sel = dsl.py_selector(ref['r'])
+        pl = handles[ref['p']]
+        h = zlib.crc32(json.dumps(ref, sort_keys=True).encode())
+        if isinstance(sel, list):
+            sl = pl[sel]
+            if h % 2 == 0:
+                sel.append((1, 1))          # the caller's list changes after the slice exists
+            return sl
+        if 'rect' in ref['r'] and h % 3 == 0:
+            rows, cols = ref['r']['rect']
+            if rows == list(range(rows[0], rows[-1] + 1)) and cols == list(range(cols[0], cols[-1] + 1)):
+                outer = pl[rows[0] + 1:rows[-1] + 1]                    # rows, 1-based inclusive
+                return outer[:, cols[0]:cols[-1] + 1]                   # columns of that slice, 0-based exclusive
+        return pl[sel]
 
     def what(w):
         return subs[w['s']] if 's' in w else dsl.KINDS[w['k']]
@@ -277,6 +295,11 @@ def to_coq(prog, d13=True):
         else:
             ops.append("(" + dsl.coq_op({'op': 'newp', 'out': o['name'], 'name': o['name'], 'rows': o['rows'], 'cols': o['cols'], 'max': o['max']}) + ")%nat")
             width[o['name']] = o['rows'] * o['cols']
+    rows_cols = {o['name']: (o['rows'], o['cols']) for o in prog['objects'] if o['t'] == 'p'}
+    for pf in prog.get('prefill', []):
+        R, C = rows_cols[pf['dst']]
+        ops.append("(" + dsl.coq_op({'op': 'transfer', 'src': {'c': pf['src']}, 'dst': {'p': pf['dst'], 'r': {'rect': [list(range(R)), list(range(C))]}},
+                                      'q': pf['q'], 'osrc': pf['src'], 'odst': pf['dst']}) + ")%nat")
     for st in prog['steps']:
         if st['op'] in ('create', 'solution', 'solutionc', 'solfrom'):
             width[st['name']] = 1
@@ -337,6 +360,24 @@ class RecipeGen:
             from pyplate import Plate
             self.eager.env[n] = Plate(cname(n), dsl.qty_str(o['max']), rows=o['rows'], columns=o['cols'])
             self.objects.append(o)
+        # some plates are declared already loaded (from one of the declared containers, before the recipe exists)
+        self.prefill = []
+        from pyplate import Plate as _Plate
+        for o in self.objects:
+            if o['t'] == 'p' and rng.random() < 0.4:
+                cs = [c['name'] for c in self.objects if c['t'] == 'c' and self.eager.env[c['name']].volume > 100]
+                if not cs:
+                    continue
+                src = rng.choice(cs)
+                P = self.eager.env[o['name']]
+                ncell = P.n_rows * P.n_columns
+                per = min(self.eager.env[src].volume * 0.25 / ncell, P.wells[0, 0].max_volume * 0.3)
+                if per < 1:
+                    continue
+                q = {'v': gen.dec(per, 2, down=True), 'p': 'u', 'b': 'L'}
+                self.eager.env[src], self.eager.env[o['name']] = _Plate.transfer(self.eager.env[src], P, dsl.qty_str(q))
+                self.prefill.append({'src': src, 'dst': o['name'], 'q': q})
+                self.stats['prefilled plate'] = self.stats.get('prefilled plate', 0) + 1
         self.initial = self.eager.snapshot()
         guard = 0
         while len(self.steps) < nsteps and self.failed is None and guard < nsteps * 5:
@@ -511,7 +552,10 @@ class RecipeGen:
                 s2 = g.sub(kind=('Solid', 'Enzyme'))
                 if s2:
                     init.append((s2['id'], gen.pick_qty(rng, 0.2, 'g', sig=2) if s2['kind'] == 'Solid' else gen.pick_qty(rng, 30 * float(s2['dens']), 'U', sig=2)))
-            self.try_step({'op': 'create', 'name': n, 'init': init})
+            if rng.random() < 0.3:      # a substance listed twice: the amounts add up, as in Container(...)
+                sid, q0 = rng.choice(init)
+                init.insert(rng.randrange(len(init) + 1), (sid, dict(q0, v=gen.dec(float(q0['v']) * rng.choice([0.5, 1, 2]), 2))))
+            self.try_step({'op': 'create', 'name': n, 'init': init}, 'create:repeated' if len({s for s, _ in init}) < len(init) else None)
         elif k == 'solution':
             solute = g.sub(kind=('Solid',))
             solvent = g.sub(kind=('Liquid',))
@@ -573,7 +617,7 @@ class RecipeGen:
         return stages
 
     def prog(self, queries):
-        return {'subs': self.subs, 'objects': self.objects, 'steps': self.steps, 'stages': self.stages, 'queries': queries}
+        return {'subs': self.subs, 'objects': self.objects, 'prefill': getattr(self, 'prefill', []), 'steps': self.steps, 'stages': self.stages, 'queries': queries}
 
 
 # ----------------------------------------------------------------------------- shared driver for C08 / C09 / C15
@@ -736,6 +780,8 @@ class Replayed:
                                                       [(self.eager.subs[s], dsl.qty_str(q)) for s, q in o['init']] or None)
             else:
                 self.eager.env[o['name']] = Plate(cname(o['name']), dsl.qty_str(o['max']), rows=o['rows'], columns=o['cols'])
+        for pf in prog.get('prefill', []):
+            self.eager.env[pf['src']], self.eager.env[pf['dst']] = Plate.transfer(self.eager.env[pf['src']], self.eager.env[pf['dst']], dsl.qty_str(pf['q']))
         self.initial = self.eager.snapshot()
         for i, st in enumerate(prog['steps']):
             try:
